@@ -2,6 +2,7 @@ package harness
 
 import (
 	"fmt"
+	"strings"
 	"time"
 
 	"go.nanomsg.org/mangos/v3"
@@ -310,7 +311,24 @@ func c18Run(w *W) {
 			}
 			w.Op("%s Send %d deadline %v besteffort=%v", kind, i, d, mode == "best-effort")
 			timedLeaveEnds = kind == "rep" || kind == "respondent"
-			c, blocked := timedCall(w, fmt.Sprintf("%s.Send#%d", kind, i), d, wantTimeout, func() (interface{}, error) { return nil, obj.Send(body) }, leave)
+			during := leave
+			if kind == "req" && d >= time.Millisecond && mode == "send-deadline" && w.Choose(simrt.SProg, 2) == 0 {
+				// while the Send waits, a Recv on the same context (shorter
+				// deadline) comes and goes: the Send's own deadline stands
+				during = func() {
+					leave()
+					if obj.SetOption(mangos.OptionRecvDeadline, d/4) != nil {
+						return
+					}
+					rc := w.Do("Recv(beside the blocked Send)", func() (interface{}, error) { return obj.Recv() })
+					w.Sleep(d / 2)
+					w.Settle()
+					if rc.Returned() {
+						w.Probe("recv-timed-out-beside-blocked-send")
+					}
+				}
+			}
+			c, blocked := timedCall(w, fmt.Sprintf("%s.Send#%d", kind, i), d, wantTimeout, func() (interface{}, error) { return nil, obj.Send(body) }, during)
 			timedLeaveEnds = false
 			if w.Failed() {
 				return
@@ -410,6 +428,16 @@ func c18Run(w *W) {
 		w.Settle()
 		if c == nil || c.Returned() {
 			return
+		}
+		if kind == "req" && strings.HasPrefix(c.Label, "Send") && w.Choose(simrt.SProg, 2) == 0 {
+			if obj.SetOption(mangos.OptionRecvDeadline, time.Millisecond) == nil {
+				rc := w.Do("Recv(beside the blocked Send)", func() (interface{}, error) { return obj.Recv() })
+				w.Sleep(2 * time.Millisecond)
+				w.Settle()
+				if rc.Returned() {
+					w.Probe("recv-timed-out-beside-blocked-send")
+				}
+			}
 		}
 		w.Sleep(time.Duration(1+w.Choose(simrt.SProg, 1000)) * time.Millisecond)
 		w.Op("last peer leaves while %s is pending", c.Label)
